@@ -54,6 +54,9 @@ Proof.
   cbn [flat_map]. rewrite replace1_app, IH, esc_q_one. reflexivity.
 Qed.
 
+Lemma escape_single_pass s : sax_escape s = flat_map esc_char s /\ sax_escape_q s = flat_map esc_char_q s.
+Proof. split; [apply sax_escape_flat | apply sax_escape_q_flat]. Qed.
+
 (** ---- the lexer on escaped text ---- *)
 Lemma fold_e_amp cx rb cr acc :
   fold_left (step cx) e_amp (Run (MNorm rb cr) acc) = Run (MNorm 0 false) (c_amp :: acc).
@@ -167,18 +170,142 @@ Proof.
   cbn [fold_left]. rewrite close_quote. reflexivity.
 Qed.
 
-Lemma lex_text_of_fold payload rb cr acc :
+Lemma lex_text_conf_of_fold payload rb cr acc :
+  fold_left (step Text) payload start = Run (MNorm rb cr) acc ->
+  lex_text_conf payload = OneText (rev acc).
+Proof. intros H. unfold lex_text_conf. rewrite H. reflexivity. Qed.
+
+(** ---- the pending phase of the element-text lexer (blank-text removal) ---- *)
+Lemma tfold_live l : forall st, fold_left tstep l (TLive st) = TLive (fold_left (step Text) l st).
+Proof. induction l as [|c l IH]; intros st; [reflexivity|]. cbn [fold_left tstep]. apply IH. Qed.
+
+Lemma is_blank_false c : is_blank c = false ->
+  (c =? c_sp) = false /\ (c =? c_tab) = false /\ (c =? c_lf) = false /\ (c =? c_cr) = false.
+Proof.
+  unfold is_blank. intros H. apply orb_false_iff in H as [H Ecr]. apply orb_false_iff in H as [H Elf].
+  apply orb_false_iff in H as [Esp Etab]. auto.
+Qed.
+
+Lemma one_ne_buf : (1 =? buf_size)%nat = false.
+Proof. reflexivity. Qed.
+
+(** a character that is neither blank nor the less-than sign ends the pending phase, chunk kept *)
+Lemma pend_next_keep p pend c : is_blank c = false -> (c =? c_lt) = false -> pend_next p pend c = PKeep pend.
+Proof.
+  intros Hb Hl. destruct (is_blank_false c Hb) as [Esp [Etab [Elf Ecr]]].
+  assert (F : fast_next pend c = PKeep pend).
+  { unfold fast_next. rewrite Esp, Etab, Elf, Ecr, Hl. reflexivity. }
+  assert (S : forall n cr, slow_next n cr pend c = PKeep pend).
+  { intros n cr. unfold slow_next. rewrite Hb, Elf, Ecr, Hl. cbn [andb]. destruct (n =? buf_size)%nat; reflexivity. }
+  destruct p; cbn [pend_next]; auto.
+  - rewrite Elf. apply S.
+  - destruct (is_fast c); auto.
+Qed.
+
+Lemma tfold_piece p pend a tl : is_blank a = false -> (a =? c_lt) = false ->
+  fold_left tstep (a :: tl) (TPend p pend)
+  = TLive (fold_left (step Text) (a :: tl) (Run (MNorm 0 false) pend)).
+Proof.
+  intros Hb Hl. cbn [fold_left tstep]. rewrite (pend_next_keep p pend a Hb Hl). apply tfold_live.
+Qed.
+
+Lemma text_of_norm rb cr acc : text_of (TLive (Run (MNorm rb cr) acc)) = OneText (rev acc).
+Proof. reflexivity. Qed.
+
+(** no raw carriage return and no raw less-than sign in the content: nothing is ever dropped,
+    the reading is the one XML 1.0 prescribes *)
+Definition no_cr_lt (l : str) : bool := forallb (fun c => negb (c =? c_cr) && negb (c =? c_lt)) l.
+
+Lemma step_blank3 pend c : (c =? c_sp) || (c =? c_tab) || (c =? c_lf) = true ->
+  step Text (Run (MNorm 0 false) pend) c = Run (MNorm 0 false) (c :: pend).
+Proof.
+  intros H. apply orb_true_iff in H as [H|H]; [apply orb_true_iff in H as [H|H]|];
+    apply N.eqb_eq in H; subst c; reflexivity.
+Qed.
+
+Lemma tfold_fast_conf l : no_cr_lt l = true -> forall pend,
+  (exists q, fold_left tstep l (TPend PFast pend) = TPend PFast q
+             /\ fold_left (step Text) l (Run (MNorm 0 false) pend) = Run (MNorm 0 false) q)
+  \/ fold_left tstep l (TPend PFast pend) = TLive (fold_left (step Text) l (Run (MNorm 0 false) pend)).
+Proof.
+  induction l as [|c l IH]; intros H pend.
+  - left. exists pend. split; reflexivity.
+  - cbn [no_cr_lt forallb] in H. apply andb_true_iff in H as [Hc Hl]. fold (no_cr_lt l) in Hl.
+    apply andb_true_iff in Hc as [Ecr Elt]. apply negb_true_iff in Ecr. apply negb_true_iff in Elt.
+    cbn [fold_left tstep pend_next]. unfold fast_next.
+    destruct ((c =? c_sp) || (c =? c_tab) || (c =? c_lf)) eqn:Eb.
+    + rewrite (step_blank3 pend c Eb). apply IH, Hl.
+    + rewrite Ecr, Elt. right. apply tfold_live.
+Qed.
+
+Theorem lex_text_conf_eq l : no_cr_lt l = true -> lex_text l = lex_text_conf l.
+Proof.
+  intros H. unfold lex_text, lex_text_conf, tstart, start.
+  destruct (tfold_fast_conf l H []) as [[q [E1 E2]]|E]; [rewrite E1, E2|rewrite E]; reflexivity.
+Qed.
+
+Lemma lex_text_of_fold payload rb cr acc : no_cr_lt payload = true ->
   fold_left (step Text) payload start = Run (MNorm rb cr) acc ->
   lex_text payload = OneText (rev acc).
-Proof. intros H. unfold lex_text. rewrite H. reflexivity. Qed.
+Proof. intros Hn H. rewrite lex_text_conf_eq by exact Hn. apply (lex_text_conf_of_fold _ _ _ _ H). Qed.
+
+Lemma no_cr_lt_flat_map (g : N -> str) s : (forall c, no_cr_lt (g c) = true) -> no_cr_lt (flat_map g s) = true.
+Proof.
+  intros Hg. induction s as [|c s IH]; [reflexivity|]. cbn [flat_map]. unfold no_cr_lt in *.
+  rewrite forallb_app, Hg, IH. reflexivity.
+Qed.
 
 (** ---- the main theorems ---- *)
-Theorem text_safe_norm s : xml_str s = true -> lex_text (sax_escape s) = OneText (norm Text s).
+Lemma text_not_attr (q : bool) : Text = AttrDq -> q = true.
+Proof. discriminate. Qed.
+
+Lemma is_blank_cases c : is_blank c = true -> c = c_sp \/ c = c_tab \/ c = c_lf \/ c = c_cr.
 Proof.
-  intros Hx. rewrite sax_escape_flat.
-  destruct (fold_escaped Text false (fun H => match H with end) s 0%nat false [] Hx) as [rb [cr E]].
-  change (escf false) with esc_char in E.
-  rewrite (lex_text_of_fold _ _ _ _ E), rev_app_distr, rev_involutive. reflexivity.
+  unfold is_blank. intros H.
+  apply orb_true_iff in H as [H|H]; [apply orb_true_iff in H as [H|H]; [apply orb_true_iff in H as [H|H]|]|];
+    apply N.eqb_eq in H; auto.
+Qed.
+
+Lemma escf_blank q c : is_blank c = true -> escf q c = [c].
+Proof.
+  intros H. destruct (is_blank_cases c H) as [E|[E|[E|E]]]; subst c; destruct q; reflexivity.
+Qed.
+
+Lemma escf_head q c : is_blank c = false ->
+  exists a tl, escf q c = a :: tl /\ is_blank a = false /\ (a =? c_lt) = false.
+Proof.
+  intros Hb. unfold escf, esc_char_q, esc_char.
+  destruct q; destruct (c =? c_quot); destruct (c =? c_amp); destruct (c =? c_lt) eqn:El; destruct (c =? c_gt);
+    (eexists; eexists; split; [reflexivity|]); first [split; reflexivity | split; assumption].
+Qed.
+
+(** escaped text met in the pending phase: what is read is the pending phase run over the
+    caller string itself, then the line-end handling *)
+Lemma tfold_escaped_pend q s : xml_str s = true -> forall p pend,
+  text_of (fold_left tstep (flat_map (escf q) s) (TPend p pend)) = OneText (bdn_go p pend s).
+Proof.
+  induction s as [|c r IH]; intros Hx p pend; [reflexivity|].
+  assert (Hr : xml_str r = true).
+  { cbn [xml_str forallb] in Hx. apply andb_true_iff in Hx as [_ Hr]. exact Hr. }
+  assert (K : forall q', fold_left tstep (flat_map (escf q) (c :: r)) (TPend p pend)
+                         = TLive (fold_left (step Text) (flat_map (escf q) (c :: r)) (Run (MNorm 0 false) q')) ->
+                         text_of (fold_left tstep (flat_map (escf q) (c :: r)) (TPend p pend))
+                         = OneText (rev q' ++ norm_go Text false (c :: r))).
+  { intros q' E. rewrite E.
+    destruct (fold_escaped Text q (text_not_attr q) (c :: r) 0%nat false q' Hx) as [rb [cr E2]].
+    rewrite E2, text_of_norm, rev_app_distr, rev_involutive. reflexivity. }
+  cbn [bdn_go]. destruct (is_blank c) eqn:Hb.
+  - destruct (pend_next p pend c) as [p' q'|q'] eqn:En.
+    + cbn [flat_map]. rewrite (escf_blank q c Hb). cbn [app fold_left tstep]. rewrite En. apply IH, Hr.
+    + apply K. cbn [flat_map]. rewrite (escf_blank q c Hb). cbn [app fold_left tstep]. rewrite En. apply tfold_live.
+  - destruct (escf_head q c Hb) as [a [tl [E [Ha Hl]]]].
+    apply K. cbn [flat_map]. rewrite E. cbn [app]. apply tfold_piece; auto.
+Qed.
+
+Theorem text_safe_norm s : xml_str s = true -> lex_text (sax_escape s) = OneText (blank_drop_normalise s).
+Proof.
+  intros Hx. rewrite sax_escape_flat. change esc_char with (escf false).
+  apply (tfold_escaped_pend false s Hx).
 Qed.
 
 Theorem attr_safe_norm s : xml_str s = true ->
@@ -190,22 +317,40 @@ Proof.
   rewrite (lex_attr_of_fold _ _ _ _ E), rev_app_distr, rev_involutive. reflexivity.
 Qed.
 
-(** text escaped with the quot entity as well is equally safe in element text *)
-Theorem text_safe_q_norm s : xml_str s = true -> lex_text (sax_escape_q s) = OneText (norm Text s).
+(** text escaped with the quot entity as well reads the same in element text *)
+Theorem text_safe_q_norm s : xml_str s = true -> lex_text (sax_escape_q s) = OneText (blank_drop_normalise s).
 Proof.
-  intros Hx. rewrite sax_escape_q_flat.
-  destruct (fold_escaped Text true (fun _ => eq_refl) s 0%nat false [] Hx) as [rb [cr E]].
-  change (escf true) with esc_char_q in E.
-  rewrite (lex_text_of_fold _ _ _ _ E), rev_app_distr, rev_involutive. reflexivity.
+  intros Hx. rewrite sax_escape_q_flat. change esc_char_q with (escf true).
+  apply (tfold_escaped_pend true s Hx).
+Qed.
+
+(** without the blank-text removal (any conformant parser) the text is the string after line-end handling *)
+Theorem text_conf_norm s : xml_str s = true -> lex_text_conf (sax_escape s) = OneText (norm Text s).
+Proof.
+  intros Hx. rewrite sax_escape_flat.
+  destruct (fold_escaped Text false (text_not_attr false) s 0%nat false [] Hx) as [rb [cr E]].
+  change (escf false) with esc_char in E.
+  rewrite (lex_text_conf_of_fold _ _ _ _ E), rev_app_distr, rev_involutive. reflexivity.
+Qed.
+
+Lemma esc_plain s : plain s = true -> sax_escape s = s.
+Proof.
+  rewrite sax_escape_flat. induction s as [|c s IH]; intros Hp; [reflexivity|].
+  cbn [plain forallb] in Hp. apply andb_true_iff in Hp as [Hm Hp]. fold (plain s) in Hp.
+  apply negb_true_iff in Hm. unfold is_meta in Hm.
+  apply orb_false_iff in Hm as [Hm Eq]. apply orb_false_iff in Hm as [Hm Eg].
+  apply orb_false_iff in Hm as [Ea El].
+  cbn [flat_map]. unfold esc_char at 1. rewrite Ea, El, Eg, (IH Hp). reflexivity.
 Qed.
 
 Theorem plain_safe_norm cx s : xml_str s = true -> plain s = true ->
-  lex_slot cx s = Got (norm cx s).
+  lex_slot cx s = Got (read_back cx s).
 Proof.
-  intros Hx Hp. destruct (fold_plain cx s 0%nat false [] Hx Hp) as [rb [cr E]].
-  unfold lex_slot. destruct cx.
-  - rewrite (lex_attr_of_fold _ _ _ _ E), rev_app_distr, rev_involutive. reflexivity.
-  - rewrite (lex_text_of_fold _ _ _ _ E), rev_app_distr, rev_involutive. reflexivity.
+  intros Hx Hp. unfold lex_slot, read_back. destruct cx.
+  - destruct (fold_plain AttrDq s 0%nat false [] Hx Hp) as [rb [cr E]].
+    rewrite (lex_attr_of_fold _ _ _ _ E), rev_app_distr, rev_involutive. reflexivity.
+  - replace (lex_text s) with (lex_text (sax_escape s)) by (rewrite esc_plain; auto).
+    rewrite text_safe_norm by exact Hx. reflexivity.
 Qed.
 
 (** ---- strings the parser normalisation leaves alone ---- *)
@@ -225,8 +370,165 @@ Proof.
   f_equal. apply IH, Hs.
 Qed.
 
+(** ---- what the blank-text removal does to a literally written string ---- *)
+(** (a) no carriage return: nothing is dropped, nothing is normalised *)
+Lemma bdn_fast_no_cr s : no_cr s = true -> forall pend, bdn_go PFast pend s = rev pend ++ s.
+Proof.
+  induction s as [|c r IH]; intros Hn pend; [cbn [bdn_go]; rewrite app_nil_r; reflexivity|].
+  assert (Hn' := Hn). cbn [no_cr forallb] in Hn'. apply andb_true_iff in Hn' as [Ecr Hr]. fold (no_cr r) in Hr.
+  apply negb_true_iff in Ecr.
+  cbn [bdn_go]. destruct (is_blank c) eqn:Hb.
+  - cbn [pend_next]. unfold fast_next. unfold is_blank in Hb. rewrite Ecr, orb_false_r in Hb. rewrite Hb.
+    rewrite (IH Hr). apply rev_cons_app.
+  - fold (norm Text (c :: r)). rewrite norm_text_id by exact Hn. reflexivity.
+Qed.
+
+Theorem bdn_no_cr s : no_cr s = true -> blank_drop_normalise s = s.
+Proof. intros H. unfold blank_drop_normalise. rewrite bdn_fast_no_cr by exact H. reflexivity. Qed.
+
 Theorem text_safe s : xml_str s = true -> no_cr s = true -> lex_text (sax_escape s) = OneText s.
-Proof. intros Hx Hn. rewrite text_safe_norm, norm_text_id; auto. Qed.
+Proof. intros Hx Hn. rewrite text_safe_norm, bdn_no_cr; auto. Qed.
+
+(** (b) in general: a leading all-blank part is lost, the rest is read with the line-end
+    handling; when something is lost, the part that is read starts at a carriage return *)
+Definition cr_of (p : bpath) : bool := match p with PCr => true | PSlow _ cr => cr | _ => false end.
+
+Lemma norm_go_cr_irrel cx cr c r : (c =? c_lf) && cr = false -> norm_go cx cr (c :: r) = norm_go cx false (c :: r).
+Proof. intros H. cbn [norm_go]. rewrite H, andb_false_r. reflexivity. Qed.
+
+Lemma norm_go_blank_ext cr0 c r : (c =? c_lf) && cr0 = false ->
+  norm_go Text cr0 (c :: r) = (if c =? c_cr then c_lf else c) :: norm_go Text (c =? c_cr) r.
+Proof. intros H. cbn [norm_go]. rewrite H. destruct (c =? c_cr); reflexivity. Qed.
+
+Lemma blank_not_lt c : is_blank c = true -> (c =? c_lt) = false.
+Proof. intros H. destruct (is_blank_cases c H) as [E|[E|[E|E]]]; subst c; reflexivity. Qed.
+
+(** a blank character never ends the pending phase with a dropped chunk *)
+Lemma pend_next_keep_blank p pend c q : is_blank c = true -> pend_next p pend c = PKeep q ->
+  q = pend /\ (c =? c_lf) && cr_of p = false.
+Proof.
+  intros Hb. pose proof (blank_not_lt c Hb) as Hl.
+  assert (F : fast_next pend c = PKeep q -> False).
+  { unfold fast_next. destruct ((c =? c_sp) || (c =? c_tab) || (c =? c_lf)) eqn:E3; [discriminate|].
+    unfold is_blank in Hb. rewrite E3 in Hb. cbn [orb] in Hb. rewrite Hb. discriminate. }
+  assert (S : forall n cr, slow_next n cr pend c = PKeep q -> q = pend /\ (c =? c_lf) && cr = false).
+  { intros n cr. unfold slow_next. destruct ((c =? c_lf) && cr) eqn:E1; [discriminate|].
+    destruct (n =? buf_size)%nat.
+    - destruct (c =? c_cr); [discriminate|]. rewrite Hl. intros H; inversion H. auto.
+    - rewrite Hb. discriminate. }
+  destruct p; cbn [pend_next cr_of].
+  - intros H; destruct (F H).
+  - destruct (c =? c_lf) eqn:Elf; [discriminate|]. intros H. destruct (S _ _ H) as [-> _]. auto.
+  - destruct (is_fast c); [intros H; destruct (F H)|]. intros H. destruct (S _ _ H) as [-> _].
+    rewrite andb_false_r. auto.
+  - apply S.
+Qed.
+
+(** a blank character that leaves the phase pending either extends the pending chunk
+    (in step with the line-end handling) or restarts it at a carriage return (chunk dropped) *)
+Lemma pend_next_stay p pend c p' q : is_blank c = true -> pend_next p pend c = PStay p' q ->
+  (forall r, rev pend ++ norm_go Text (cr_of p) (c :: r) = rev q ++ norm_go Text (cr_of p') r)
+  \/ (c = c_cr /\ q = [c_lf] /\ cr_of p' = true).
+Proof.
+  intros Hb.
+  assert (F : fast_next pend c = PStay p' q ->
+              (forall r, rev pend ++ norm_go Text false (c :: r) = rev q ++ norm_go Text (cr_of p') r)
+              \/ (c = c_cr /\ q = [c_lf] /\ cr_of p' = true)).
+  { unfold fast_next. destruct ((c =? c_sp) || (c =? c_tab) || (c =? c_lf)) eqn:E3.
+    - intros H; inversion H; subst p' q. left. intros r. cbn [cr_of].
+      assert (Ecr : (c =? c_cr) = false).
+      { apply orb_true_iff in E3 as [E|E]; [apply orb_true_iff in E as [E|E]|]; apply N.eqb_eq in E; subst c; reflexivity. }
+      rewrite norm_go_blank_ext by apply andb_false_r. rewrite Ecr. symmetry. apply rev_cons_app.
+    - destruct (c =? c_cr) eqn:Ecr; [|destruct (c =? c_lt); discriminate].
+      intros H; inversion H; subst p' q. right. apply N.eqb_eq in Ecr. auto. }
+  assert (S : forall n cr, slow_next n cr pend c = PStay p' q ->
+              (forall r, rev pend ++ norm_go Text cr (c :: r) = rev q ++ norm_go Text (cr_of p') r)
+              \/ (c = c_cr /\ q = [c_lf] /\ cr_of p' = true)).
+  { intros n cr. unfold slow_next. destruct ((c =? c_lf) && cr) eqn:E1.
+    - intros H; inversion H; subst p' q. left. intros r. cbn [cr_of norm_go].
+      apply andb_true_iff in E1 as [Elf Hcr]. apply N.eqb_eq in Elf. subst c cr. reflexivity.
+    - destruct (n =? buf_size)%nat.
+      + destruct (c =? c_cr) eqn:Ecr; [|destruct (c =? c_lt); discriminate].
+        intros H; inversion H; subst p' q. right. apply N.eqb_eq in Ecr. auto.
+      + rewrite Hb. intros H; inversion H; subst p' q. left. intros r. cbn [cr_of].
+        rewrite norm_go_blank_ext by exact E1. symmetry. apply rev_cons_app. }
+  destruct p; cbn [pend_next cr_of].
+  - exact F.
+  - destruct (c =? c_lf) eqn:Elf.
+    + intros H; inversion H; subst p' q. left. intros r. apply N.eqb_eq in Elf. subst c. reflexivity.
+    + intros H. destruct (S _ _ H) as [E|D]; [left|right; exact D].
+      intros r. rewrite norm_go_cr_irrel by (rewrite Elf; reflexivity). apply E.
+  - destruct (is_fast c); [exact F|apply S].
+  - apply S.
+Qed.
+
+Lemma bdn_go_split : forall s p pend a x,
+  forallb is_blank a = true -> forallb is_blank x = true ->
+  (a = [] \/ hd_error x = Some c_cr) ->
+  (forall r, norm_go Text false (x ++ r) = rev pend ++ norm_go Text (cr_of p) r) ->
+  exists a' b, a ++ x ++ s = a' ++ b /\ forallb is_blank a' = true
+               /\ (a' = [] \/ hd_error b = Some c_cr) /\ bdn_go p pend s = norm Text b.
+Proof.
+  induction s as [|c r IH]; intros p pend a x Ha Hx Hd Hn.
+  - exists a, x. rewrite app_nil_r. repeat split; auto.
+    cbn [bdn_go]. unfold norm. specialize (Hn []). cbn [norm_go] in Hn. rewrite !app_nil_r in Hn. auto.
+  - assert (Hd' : forall t, a = [] \/ hd_error (x ++ t) = Some c_cr).
+    { intros t. destruct Hd as [Hd|Hd]; [left; exact Hd|right]. destruct x; [discriminate Hd|exact Hd]. }
+    cbn [bdn_go]. destruct (is_blank c) eqn:Hb.
+    + destruct (pend_next p pend c) as [p' q|q] eqn:En.
+      * destruct (pend_next_stay p pend c p' q Hb En) as [E|[Ec [Eq Ecr]]].
+        -- destruct (IH p' q a (x ++ [c])) as [a' [b [E1 [E2 [E3 E4]]]]]; auto.
+           ++ rewrite forallb_app, Hx. cbn [forallb]. rewrite Hb. reflexivity.
+           ++ intros t. rewrite <- app_assoc. cbn [app]. rewrite Hn. apply E.
+           ++ exists a', b. repeat split; auto. rewrite <- E1, <- !app_assoc. reflexivity.
+        -- subst c q.
+           destruct (IH p' [c_lf] (a ++ x) [c_cr]) as [a' [b [E1 [E2 [E3 E4]]]]]; auto.
+           ++ rewrite forallb_app, Ha, Hx. reflexivity.
+           ++ intros t. rewrite Ecr. reflexivity.
+           ++ exists a', b. repeat split; auto. rewrite <- E1, <- !app_assoc. reflexivity.
+      * destruct (pend_next_keep_blank p pend c q Hb En) as [-> Hc].
+        exists a, (x ++ c :: r). repeat split; auto.
+        unfold norm. rewrite Hn, (norm_go_cr_irrel Text (cr_of p) c r Hc). reflexivity.
+    + exists a, (x ++ c :: r). repeat split; auto.
+      destruct (is_blank_false c Hb) as [_ [_ [Elf _]]].
+      unfold norm. rewrite Hn, (norm_go_cr_irrel Text (cr_of p) c r); [reflexivity|]. rewrite Elf. reflexivity.
+Qed.
+
+Theorem bdn_suffix s : exists a b, s = a ++ b /\ forallb is_blank a = true
+  /\ (a = [] \/ hd_error b = Some c_cr) /\ blank_drop_normalise s = norm Text b.
+Proof.
+  destruct (bdn_go_split s PFast [] [] []) as [a [b H]]; auto. exists a, b. exact H.
+Qed.
+
+(** everything from the first non-blank character on is read (with the line-end handling) *)
+Lemma norm_go_app_keep c r : (c =? c_lf) = false -> forall u cr,
+  exists k, norm_go Text cr (u ++ c :: r) = k ++ norm_go Text false (c :: r).
+Proof.
+  intros Hc. induction u as [|d u IH]; intros cr.
+  - exists []. cbn [app]. apply norm_go_cr_irrel. rewrite Hc. reflexivity.
+  - cbn [app norm_go]. destruct (d =? c_cr).
+    + destruct (IH true) as [k E]. exists (eol Text :: k). rewrite E. reflexivity.
+    + destruct ((d =? c_lf) && cr).
+      * destruct (IH false) as [k E]. exists k. exact E.
+      * destruct (IH false) as [k E]. exists (d :: k). rewrite E. reflexivity.
+Qed.
+
+Lemma bdn_go_keeps c r : is_blank c = false -> forall pre, forallb is_blank pre = true -> forall p pend,
+  exists k, bdn_go p pend (pre ++ c :: r) = k ++ norm Text (c :: r).
+Proof.
+  intros Hc. destruct (is_blank_false c Hc) as [_ [_ [Elf _]]].
+  induction pre as [|d pre IH]; intros Hp p pend.
+  - exists (rev pend). cbn [app bdn_go]. rewrite Hc. reflexivity.
+  - cbn [forallb] in Hp. apply andb_true_iff in Hp as [Hd Hp].
+    cbn [app bdn_go]. rewrite Hd. destruct (pend_next p pend d) as [p' q|q].
+    + apply IH, Hp.
+    + destruct (norm_go_app_keep c r Elf (d :: pre) false) as [k E]. exists (rev q ++ k).
+      cbn [app] in E. rewrite E, <- app_assoc. reflexivity.
+Qed.
+
+Theorem bdn_keeps_nonblank pre c r : forallb is_blank pre = true -> is_blank c = false ->
+  exists k, blank_drop_normalise (pre ++ c :: r) = k ++ norm Text (c :: r).
+Proof. intros Hp Hc. apply bdn_go_keeps; auto. Qed.
 
 Theorem attr_safe s : xml_str s = true -> no_ws_ctl s = true ->
   lex_attr (c_quot :: sax_escape_q s ++ [c_quot]) = OneValue s.
@@ -241,6 +543,13 @@ Proof.
   destruct ((c =? c_lf) && b); [specialize (IH false); lia|].
   specialize (IH false); cbn [length]; lia.
 Qed.
+
+Theorem bdn_length s : (length (blank_drop_normalise s) <= length s)%nat.
+Proof.
+  destruct (bdn_suffix s) as [a [b [E [_ [_ E2]]]]]. rewrite E2. rewrite E, app_length.
+  pose proof (norm_length Text b). lia.
+Qed.
+
 
 (** ---- refutations ---- *)
 Theorem attr_sax_refuted : exists s, xml_str s = true /\ no_ws_ctl s = true /\
@@ -263,26 +572,36 @@ Definition cdata_end : str := [c_rbr; c_rbr; c_gt].
 Lemma fold_dead cx l : fold_left (step cx) l Dead = Dead.
 Proof. induction l; simpl; auto. Qed.
 
+Lemma fold_cdata_end rb cr acc : fold_left (step Text) cdata_end (Run (MNorm rb cr) acc) = Dead.
+Proof.
+  unfold cdata_end. cbn [fold_left].
+  assert (E1 : step Text (Run (MNorm rb cr) acc) c_rbr = Run (MNorm (Nat.min 2 (S rb)) false) (c_rbr :: acc)).
+  { destruct cr; reflexivity. }
+  rewrite E1.
+  assert (E2 : step Text (Run (MNorm (Nat.min 2 (S rb)) false) (c_rbr :: acc)) c_rbr
+               = Run (MNorm (Nat.min 2 (S (Nat.min 2 (S rb)))) false) (c_rbr :: c_rbr :: acc)) by reflexivity.
+  rewrite E2.
+  assert (E3 : (2 <=? Nat.min 2 (S (Nat.min 2 (S rb))))%nat = true) by (apply Nat.leb_le; lia).
+  cbn [step]. change (negb (is_xml_char c_gt)) with false. cbv iota.
+  change (c_gt =? c_amp) with false. change (c_gt =? c_lt) with false.
+  change (c_gt =? c_cr) with false. change (c_gt =? c_lf) with false. cbn [andb].
+  rewrite N.eqb_refl, E3. reflexivity.
+Qed.
+
+(** the lexer stands in character data (pending phase included) *)
+Definition in_chardata (t : tst) : bool :=
+  match t with TPend _ _ => true | TLive (Run (MNorm _ _) _) => true | TLive _ => false end.
+
 (** in character data the sequence is an error, whatever stands before and after *)
-Theorem cdata_end_rejected a b rb cr acc :
-  fold_left (step Text) a start = Run (MNorm rb cr) acc ->
+Theorem cdata_end_rejected a b : in_chardata (fold_left tstep a tstart) = true ->
   lex_text (a ++ cdata_end ++ b) = BrokenText.
 Proof.
-  intros Ha. unfold lex_text. rewrite !fold_left_app, Ha.
-  assert (E : fold_left (step Text) cdata_end (Run (MNorm rb cr) acc) = Dead).
-  { unfold cdata_end. cbn [fold_left].
-    assert (E1 : step Text (Run (MNorm rb cr) acc) c_rbr = Run (MNorm (Nat.min 2 (S rb)) false) (c_rbr :: acc)).
-    { destruct cr; reflexivity. }
-    rewrite E1.
-    assert (E2 : step Text (Run (MNorm (Nat.min 2 (S rb)) false) (c_rbr :: acc)) c_rbr
-                 = Run (MNorm (Nat.min 2 (S (Nat.min 2 (S rb)))) false) (c_rbr :: c_rbr :: acc)) by reflexivity.
-    rewrite E2.
-    assert (E3 : (2 <=? Nat.min 2 (S (Nat.min 2 (S rb))))%nat = true) by (apply Nat.leb_le; lia).
-    cbn [step]. change (negb (is_xml_char c_gt)) with false. cbv iota.
-    change (c_gt =? c_amp) with false. change (c_gt =? c_lt) with false.
-    change (c_gt =? c_cr) with false. change (c_gt =? c_lf) with false. cbn [andb].
-    rewrite N.eqb_refl, E3. reflexivity. }
-  rewrite E, fold_dead. reflexivity.
+  intros Ha. unfold lex_text. rewrite !fold_left_app.
+  destruct (fold_left tstep a tstart) as [p pend|st].
+  - unfold cdata_end at 1. rewrite tfold_piece by reflexivity. fold cdata_end.
+    rewrite fold_cdata_end, tfold_live, fold_dead. reflexivity.
+  - destruct st as [[rb cr|nm|k|rb cr] acc|acc|]; try discriminate Ha.
+    rewrite tfold_live, fold_cdata_end, tfold_live, fold_dead. reflexivity.
 Qed.
 
 (** a CDATA section in element content is consumed: the text read back is not the text written *)
@@ -308,6 +627,9 @@ Proof.
   intros E. apply (no_gt_after_escape s). rewrite E. apply in_or_app. right.
   apply in_or_app. left. simpl. auto.
 Qed.
+
+Lemma cdata_end_absent s : ~ In c_gt (sax_escape s) /\ forall a b, sax_escape s <> a ++ cdata_end ++ b.
+Proof. split; [apply no_gt_after_escape | apply no_cdata_end_after_escape]. Qed.
 
 (** ---- escape with white-space references ---- *)
 Lemma replace1_flat_map k rep (g : N -> str) s :
@@ -400,14 +722,31 @@ Proof.
     destruct (IH rb1 (c :: acc) Hs) as [rb' E]. exists rb'. rewrite E, rev_cons_app. reflexivity.
 Qed.
 
+(** with the carriage return written as a reference no raw CR and no raw less-than sign
+    reaches the parser: the blank-text heuristic cannot fire *)
+Lemma esc_g_no_cr_lt q t l c : no_cr_lt (esc_char_g q t l true c) = true.
+Proof.
+  unfold esc_char_g.
+  destruct (c =? c_cr) eqn:Ecr. { apply N.eqb_eq in Ecr; subst c. destruct q, t, l; reflexivity. }
+  unfold esc_char. destruct (c =? c_lt) eqn:Elt. { apply N.eqb_eq in Elt; subst c. destruct q, t, l; reflexivity. }
+  destruct ((c =? c_quot) && q); [reflexivity|]. destruct ((c =? c_tab) && t); [reflexivity|].
+  destruct ((c =? c_lf) && l); [reflexivity|]. cbn [andb].
+  destruct (c =? c_amp); [reflexivity|]. destruct (c =? c_gt); [reflexivity|].
+  cbn [no_cr_lt forallb]. rewrite Ecr, Elt. reflexivity.
+Qed.
+
+Theorem escaped_cr_no_raw q t l s : no_cr_lt (sax_escape_g q t l true s) = true.
+Proof. rewrite sax_escape_g_flat. apply no_cr_lt_flat_map. intros c. apply esc_g_no_cr_lt. Qed.
+
 Theorem slot_exact cx q t l r s : exact_ok cx q t l r = true -> xml_str s = true ->
   lex_slot cx (sax_escape_g q t l r s) = Got s.
 Proof.
-  intros Hok Hx. rewrite sax_escape_g_flat.
+  intros Hok Hx.
   destruct (fold_exact cx q t l r Hok s 0%nat [] Hx) as [rb E].
   unfold lex_slot. destruct cx.
-  - rewrite (lex_attr_of_fold _ _ _ _ E), app_nil_r, rev_involutive. reflexivity.
-  - rewrite (lex_text_of_fold _ _ _ _ E), app_nil_r, rev_involutive. reflexivity.
+  - rewrite sax_escape_g_flat, (lex_attr_of_fold _ _ _ _ E), app_nil_r, rev_involutive. reflexivity.
+  - cbn [exact_ok] in Hok. subst r. rewrite <- sax_escape_g_flat in E.
+    rewrite (lex_text_of_fold _ _ _ _ (escaped_cr_no_raw q t l s) E), app_nil_r, rev_involutive. reflexivity.
 Qed.
 
 (** the attribute theorem without any guard *)
@@ -442,7 +781,7 @@ Proof.
   - apply slot_exact; auto.
   - destruct (Hp eq_refl) as [Hpl Hw]. rewrite plain_safe_norm; auto. f_equal.
     destruct cx; [apply norm_attr_id; auto|].
-    apply norm_text_id. unfold no_ws_ctl in Hw. unfold no_cr. rewrite forallb_forall in *.
+    apply bdn_no_cr. unfold no_ws_ctl in Hw. unfold no_cr. rewrite forallb_forall in *.
     intros c Hc. specialize (Hw c Hc). apply negb_true_iff in Hw. apply orb_false_iff in Hw as [_ Hw].
     rewrite Hw. reflexivity.
 Qed.
@@ -456,60 +795,105 @@ Proof.
 Qed.
 
 (** markup safety alone (strings without TAB, LF, CR): the quote in attributes is what matters *)
+(** unescaped white space is normalised, never an error *)
+Lemma fold_g_norm cx q t l r : (cx = AttrDq -> q = true) ->
+  forall s rb cr acc, xml_str s = true ->
+  exists rb' cr' v, fold_left (step cx) (flat_map (esc_char_g q t l r) s) (Run (MNorm rb cr) acc)
+                    = Run (MNorm rb' cr') v.
+Proof.
+  intros Hq. induction s as [|c s IH]; intros rb cr acc Hx.
+  - exists rb, cr, acc. reflexivity.
+  - cbn [xml_str forallb] in Hx. apply andb_true_iff in Hx as [Hc Hs]. fold (xml_str s) in Hs.
+    cbn [flat_map]. rewrite fold_left_app.
+    assert (Hone : exists rb1 cr1 v1, fold_left (step cx) (esc_char_g q t l r c) (Run (MNorm rb cr) acc)
+                                      = Run (MNorm rb1 cr1) v1).
+    { destruct (c =? c_amp) eqn:Ea.
+      { apply N.eqb_eq in Ea; subst c. change (esc_char_g q t l r c_amp) with e_amp.
+        rewrite fold_e_amp. do 3 eexists; reflexivity. }
+      destruct (c =? c_lt) eqn:Elt.
+      { apply N.eqb_eq in Elt; subst c. change (esc_char_g q t l r c_lt) with e_lt.
+        rewrite fold_e_lt. do 3 eexists; reflexivity. }
+      destruct (c =? c_gt) eqn:Egt.
+      { apply N.eqb_eq in Egt; subst c. change (esc_char_g q t l r c_gt) with e_gt.
+        rewrite fold_e_gt. do 3 eexists; reflexivity. }
+      destruct (c =? c_quot) eqn:Eq.
+      { apply N.eqb_eq in Eq; subst c. change (esc_char_g q t l r c_quot) with (if q then e_quot else [c_quot]).
+        destruct q; [rewrite fold_e_quot; do 3 eexists; reflexivity|].
+        destruct cx; [discriminate (Hq eq_refl)|]. destruct cr; do 3 eexists; reflexivity. }
+      destruct (c =? c_tab) eqn:Et.
+      { apply N.eqb_eq in Et; subst c. change (esc_char_g q t l r c_tab) with (if t then e_tab else [c_tab]).
+        destruct t; [rewrite fold_e_tab; do 3 eexists; reflexivity|].
+        destruct cx, cr; do 3 eexists; reflexivity. }
+      destruct (c =? c_lf) eqn:Elf.
+      { apply N.eqb_eq in Elf; subst c. change (esc_char_g q t l r c_lf) with (if l then e_lf else [c_lf]).
+        destruct l; [rewrite fold_e_lf; do 3 eexists; reflexivity|].
+        destruct cx, cr; do 3 eexists; reflexivity. }
+      destruct (c =? c_cr) eqn:Ecr.
+      { apply N.eqb_eq in Ecr; subst c. change (esc_char_g q t l r c_cr) with (if r then e_cr else [c_cr]).
+        destruct r; [rewrite fold_e_cr; do 3 eexists; reflexivity|].
+        destruct cx, cr; do 3 eexists; reflexivity. }
+      assert (Ef : esc_char_g q t l r c = [c]).
+      { unfold esc_char_g, esc_char. rewrite Eq, Et, Elf, Ecr, Ea, Elt, Egt. reflexivity. }
+      rewrite Ef. cbn [fold_left step]. rewrite Hc, Ea, Elt, Ecr, Elf. cbn [negb andb].
+      destruct cx.
+      - rewrite Eq. do 3 eexists; reflexivity.
+      - rewrite Egt. cbn [andb]. do 3 eexists; reflexivity. }
+    destruct Hone as [rb1 [cr1 [v1 E1]]]. rewrite E1. apply IH; auto.
+Qed.
+
+(** what one character becomes: itself when it is a raw blank, otherwise a piece whose first
+    character is neither blank nor the less-than sign *)
+Lemma esc_g_shape q t l r c :
+  (esc_char_g q t l r c = [c] /\ is_blank c = true)
+  \/ (exists a tl, esc_char_g q t l r c = a :: tl /\ is_blank a = false /\ (a =? c_lt) = false).
+Proof.
+  destruct (c =? c_amp) eqn:Ea. { apply N.eqb_eq in Ea; subst c. right. exists c_amp; eexists. repeat split. }
+  destruct (c =? c_lt) eqn:Elt. { apply N.eqb_eq in Elt; subst c. right. exists c_amp; eexists. repeat split. }
+  destruct (c =? c_gt) eqn:Egt. { apply N.eqb_eq in Egt; subst c. right. exists c_amp; eexists. repeat split. }
+  destruct (c =? c_quot) eqn:Eq.
+  { apply N.eqb_eq in Eq; subst c. right. destruct q; [exists c_amp|exists c_quot]; eexists; repeat split. }
+  destruct (c =? c_tab) eqn:Et.
+  { apply N.eqb_eq in Et; subst c. destruct t; [right; exists c_amp; eexists; repeat split|left; split; reflexivity]. }
+  destruct (c =? c_lf) eqn:Elf.
+  { apply N.eqb_eq in Elf; subst c. destruct l; [right; exists c_amp; eexists; repeat split|left; split; reflexivity]. }
+  destruct (c =? c_cr) eqn:Ecr.
+  { apply N.eqb_eq in Ecr; subst c. destruct r; [right; exists c_amp; eexists; repeat split|left; split; reflexivity]. }
+  assert (Ef : esc_char_g q t l r c = [c]).
+  { unfold esc_char_g, esc_char. rewrite Eq, Et, Elf, Ecr, Ea, Elt, Egt. reflexivity. }
+  destruct (is_blank c) eqn:Hb; [left; auto|right]. exists c, []. auto.
+Qed.
+
+Lemma tfold_g_pend q t l r s : xml_str s = true -> forall p pend,
+  text_of (fold_left tstep (flat_map (esc_char_g q t l r) s) (TPend p pend)) <> BrokenText.
+Proof.
+  induction s as [|c s IH]; intros Hx p pend; [discriminate|].
+  assert (Hs : xml_str s = true).
+  { cbn [xml_str forallb] in Hx. apply andb_true_iff in Hx as [_ Hs]. exact Hs. }
+  assert (K : forall q', fold_left tstep (flat_map (esc_char_g q t l r) (c :: s)) (TPend p pend)
+                         = TLive (fold_left (step Text) (flat_map (esc_char_g q t l r) (c :: s)) (Run (MNorm 0 false) q')) ->
+                         text_of (fold_left tstep (flat_map (esc_char_g q t l r) (c :: s)) (TPend p pend)) <> BrokenText).
+  { intros q' E. rewrite E.
+    destruct (fold_g_norm Text q t l r (text_not_attr q) (c :: s) 0%nat false q' Hx) as [rb [cr [v E2]]].
+    rewrite E2. discriminate. }
+  destruct (esc_g_shape q t l r c) as [[E Hb]|[a [tl [E [Ha Hl]]]]].
+  - destruct (pend_next p pend c) as [p' q'|q'] eqn:En.
+    + cbn [flat_map]. rewrite E. cbn [app fold_left tstep]. rewrite En. apply IH, Hs.
+    + apply (K q'). cbn [flat_map]. rewrite E. cbn [app fold_left tstep]. rewrite En. apply tfold_live.
+  - apply (K pend). cbn [flat_map]. rewrite E. cbn [app]. apply tfold_piece; auto.
+Qed.
+
 Theorem markup_ok_sound cx e : markup_ok cx e = true ->
   forall s, xml_str s = true -> (e = NotText -> plain s = true) ->
   lex_slot cx (apply_esc e s) <> Broken.
 Proof.
   intros Hok s Hx Hp. destruct e as [|q t l r|]; cbn [apply_esc].
   - discriminate Hok.
-  - (* unescaped white space is normalised, never an error: go through the general fold *)
-    assert (G : forall s rb cr acc, xml_str s = true -> (cx = AttrDq -> q = true) ->
-      exists rb' cr' v, fold_left (step cx) (flat_map (esc_char_g q t l r) s) (Run (MNorm rb cr) acc)
-                        = Run (MNorm rb' cr') v).
-    { clear s Hx Hp. induction s as [|c s IH]; intros rb cr acc Hx Hq.
-      - exists rb, cr, acc. reflexivity.
-      - cbn [xml_str forallb] in Hx. apply andb_true_iff in Hx as [Hc Hs]. fold (xml_str s) in Hs.
-        cbn [flat_map]. rewrite fold_left_app.
-        assert (Hone : exists rb1 cr1 v1, fold_left (step cx) (esc_char_g q t l r c) (Run (MNorm rb cr) acc)
-                                          = Run (MNorm rb1 cr1) v1).
-        { destruct (c =? c_amp) eqn:Ea.
-          { apply N.eqb_eq in Ea; subst c. change (esc_char_g q t l r c_amp) with e_amp.
-            rewrite fold_e_amp. do 3 eexists; reflexivity. }
-          destruct (c =? c_lt) eqn:Elt.
-          { apply N.eqb_eq in Elt; subst c. change (esc_char_g q t l r c_lt) with e_lt.
-            rewrite fold_e_lt. do 3 eexists; reflexivity. }
-          destruct (c =? c_gt) eqn:Egt.
-          { apply N.eqb_eq in Egt; subst c. change (esc_char_g q t l r c_gt) with e_gt.
-            rewrite fold_e_gt. do 3 eexists; reflexivity. }
-          destruct (c =? c_quot) eqn:Eq.
-          { apply N.eqb_eq in Eq; subst c. change (esc_char_g q t l r c_quot) with (if q then e_quot else [c_quot]).
-            destruct q; [rewrite fold_e_quot; do 3 eexists; reflexivity|].
-            destruct cx; [discriminate (Hq eq_refl)|]. destruct cr; do 3 eexists; reflexivity. }
-          destruct (c =? c_tab) eqn:Et.
-          { apply N.eqb_eq in Et; subst c. change (esc_char_g q t l r c_tab) with (if t then e_tab else [c_tab]).
-            destruct t; [rewrite fold_e_tab; do 3 eexists; reflexivity|].
-            destruct cx, cr; do 3 eexists; reflexivity. }
-          destruct (c =? c_lf) eqn:Elf.
-          { apply N.eqb_eq in Elf; subst c. change (esc_char_g q t l r c_lf) with (if l then e_lf else [c_lf]).
-            destruct l; [rewrite fold_e_lf; do 3 eexists; reflexivity|].
-            destruct cx, cr; do 3 eexists; reflexivity. }
-          destruct (c =? c_cr) eqn:Ecr.
-          { apply N.eqb_eq in Ecr; subst c. change (esc_char_g q t l r c_cr) with (if r then e_cr else [c_cr]).
-            destruct r; [rewrite fold_e_cr; do 3 eexists; reflexivity|].
-            destruct cx, cr; do 3 eexists; reflexivity. }
-          assert (Ef : esc_char_g q t l r c = [c]).
-          { unfold esc_char_g, esc_char. rewrite Eq, Et, Elf, Ecr, Ea, Elt, Egt. reflexivity. }
-          rewrite Ef. cbn [fold_left step]. rewrite Hc, Ea, Elt, Ecr, Elf. cbn [negb andb].
-          destruct cx.
-          - rewrite Eq. do 3 eexists; reflexivity.
-          - rewrite Egt. cbn [andb]. do 3 eexists; reflexivity. }
-        destruct Hone as [rb1 [cr1 [v1 E1]]]. rewrite E1. apply IH; auto. }
-    rewrite sax_escape_g_flat.
-    assert (Hq : cx = AttrDq -> q = true) by (intros ->; exact Hok).
-    destruct (G s 0%nat false [] Hx Hq) as [rb [cr [v E]]].
-    unfold lex_slot. destruct cx.
-    + rewrite (lex_attr_of_fold _ _ _ _ E). discriminate.
-    + rewrite (lex_text_of_fold _ _ _ _ E). discriminate.
+  - rewrite sax_escape_g_flat. unfold lex_slot. destruct cx.
+    + assert (Hq : AttrDq = AttrDq -> q = true) by (intros _; exact Hok).
+      destruct (fold_g_norm AttrDq q t l r Hq s 0%nat false [] Hx) as [rb [cr [v E]]].
+      rewrite (lex_attr_of_fold _ _ _ _ E). discriminate.
+    + pose proof (tfold_g_pend q t l r s Hx PFast []) as H. unfold lex_text, tstart.
+      destruct (text_of _); [discriminate|]. exfalso; apply H; reflexivity.
   - rewrite plain_safe_norm; auto. discriminate.
 Qed.
 
@@ -526,6 +910,59 @@ Example guards_inhabited :
   xml_str s = true /\ no_ws_ctl s = true /\ no_cr s = true
   /\ lex_text (sax_escape s) = OneText s
   /\ lex_attr (c_quot :: sax_escape_q s ++ [c_quot]) = OneValue s.
+Proof. vm_compute. repeat split. Qed.
+
+(** ---- the blank-text removal at work ---- *)
+Definition blank_wit1 : str := [c_sp; c_cr; 88].                         (* blank CR X *)
+Definition blank_wit2 : str := [c_cr; c_lf; c_tab; c_cr; c_lf; 88].      (* CR LF TAB CR LF X *)
+
+Example blank_drop_ex1 :
+  lex_text (sax_escape blank_wit1) = OneText [c_lf; 88] /\ norm Text blank_wit1 = [c_sp; c_lf; 88].
+Proof. vm_compute. split; reflexivity. Qed.
+Example blank_drop_ex2 :
+  lex_text (sax_escape blank_wit2) = OneText [c_lf; 88] /\ norm Text blank_wit2 = [c_lf; c_tab; c_lf; 88].
+Proof. vm_compute. split; reflexivity. Qed.
+
+(** plain saxutils.escape in element text: a conformant parser gives the string back up to
+    line ends, libxml2 with blank-text removal does not even do that *)
+Theorem text_sax_blank_refuted : exists s, xml_str s = true
+  /\ lex_text_conf (sax_escape s) = OneText (norm Text s)
+  /\ lex_text (sax_escape s) <> OneText (norm Text s).
+Proof. exists blank_wit1. repeat split; try reflexivity. vm_compute. discriminate. Qed.
+
+(** CR LF before a character outside the fast path keeps the LF; a blank before a CDATA
+    section is dropped, after it kept; the 300-byte buffer of the slow path *)
+Example blank_drop_ex3 :
+  blank_drop_normalise [c_sp; c_cr; c_lf; 233] = [c_lf; 233]
+  /\ blank_drop_normalise [c_cr; c_lf; c_cr; c_sp; 88] = [c_lf; c_lf; c_sp; 88]
+  /\ blank_drop_normalise [c_cr; c_lf; c_sp; c_cr; 88] = [c_lf; 88]
+  /\ blank_drop_normalise [c_sp; c_cr] = [c_lf]
+  /\ lex_text ([c_sp; c_lt] ++ cdata_open ++ [120; c_rbr; c_rbr; c_gt; c_sp]) = OneText [120; c_sp]
+  /\ lex_text_conf ([c_sp; c_lt] ++ cdata_open ++ [120; c_rbr; c_rbr; c_gt; c_sp]) = OneText [c_sp; 120; c_sp].
+Proof. vm_compute. repeat split. Qed.
+Example blank_drop_ex_buffer :
+  blank_drop_normalise (c_cr :: repeat c_sp 299 ++ [c_cr; 88]) = [c_lf; 88]
+  /\ length (blank_drop_normalise (c_cr :: repeat c_sp 298 ++ [c_cr; 88])) = 301%nat
+  /\ length (blank_drop_normalise (c_cr :: repeat c_sp 300 ++ [c_cr; 88])) = 303%nat.
+Proof. vm_compute. repeat split. Qed.
+
+(** non-vacuity of the characterisation lemmas *)
+Example bdn_no_cr_ex : no_cr [c_sp; c_tab; c_lf; 88; c_sp] = true
+  /\ blank_drop_normalise [c_sp; c_tab; c_lf; 88; c_sp] = [c_sp; c_tab; c_lf; 88; c_sp].
+Proof. vm_compute. split; reflexivity. Qed.
+Example bdn_suffix_ex : blank_wit2 = [c_cr; c_lf; c_tab] ++ [c_cr; c_lf; 88]
+  /\ forallb is_blank [c_cr; c_lf; c_tab] = true
+  /\ blank_drop_normalise blank_wit2 = norm Text [c_cr; c_lf; 88].
+Proof. vm_compute. repeat split. Qed.
+Example bdn_keeps_ex : forallb is_blank [c_sp; c_cr; c_tab] = true /\ is_blank 88 = false
+  /\ blank_drop_normalise ([c_sp; c_cr; c_tab] ++ [88; c_cr; c_sp]) = [c_lf; c_tab] ++ norm Text [88; c_cr; c_sp].
+Proof. vm_compute. repeat split. Qed.
+Example conf_eq_ex : let l := sax_escape_g false false false true [c_sp; c_cr; c_lf; 88; c_lt] in
+  no_cr_lt l = true /\ lex_text l = lex_text_conf l /\ lex_text l = OneText [c_sp; c_cr; c_lf; 88; c_lt].
+Proof. vm_compute. repeat split. Qed.
+Example cdata_end_ex : in_chardata (fold_left tstep [c_sp] tstart) = true
+  /\ in_chardata (fold_left tstep [97] tstart) = true
+  /\ lex_text ([c_sp] ++ cdata_end ++ [98]) = BrokenText /\ lex_text ([97] ++ cdata_end ++ [98]) = BrokenText.
 Proof. vm_compute. repeat split. Qed.
 
 Example norm_example :
